@@ -16,14 +16,16 @@ CLAIMS = {
              "success exit only through a CFG edge on which info.sender == designated principal was observed (interprocedural "
              "must-pass-through on MIR, specialised per variant); that principal cells are written only by their designated guarded "
              "variants; two-step ownership value flow; hub token addresses write-once; minter wiring. One graph query covers all "
-             "senders and states, which no finite test can. 'Changes nothing' relies on CosmWasm's revert.",
+             "senders and states, which no finite test can. 'Changes nothing' relies on CosmWasm's revert."
+             " Also: SetOwner / AcceptOwnership cannot succeed without writing the nominee cell / the owner field (a withdrawn nomination cannot be accepted).",
         technique="MIR must-pass-through (pass-edge reachability) + value provenance + per-variant effect sets",
         ref="6/C10"),
     "C11": dict(
         text="Decides that in hub execute every variant except the two exemptions reaches success only through the edge where "
              "paused.unwrap_or(false) was observed false; exemptions write only PARAMETERS / wait-list buckets and emit nothing; "
              "every PARAMETERS writer that can store paused != Some(true) is dominated by an observed-empty legacy list "
-             "(3-valued specialisation); queries never read the flag.",
+             "(3-valued specialisation); queries never read the flag."
+             " Also: the migration unpauses only after having found and migrated legacy entries.",
         technique="MIR pass-edge reachability + constant-propagation specialisation + effect sets",
         ref="6/C11"),
     "C20": dict(
@@ -40,7 +42,8 @@ CLAIMS = {
              "keeper amount = own balance x keeper rate in the same denom; forwarded shares are balance - keeper of the same denom "
              "(complement: nothing retained); index update last and after the bSei share; operand roles of the share formula and "
              "offer/ask denom pairing in the swap computation. NOT decided: offer <= holdings and the share equality at the oracle "
-             "price (numeric).",
+             "price (numeric)."
+             " Also: the reward totals are accumulated over one query_all_balances answer (each coin counted once); the conversion swaps precede the rebalancing swap that spends their proceeds.",
         technique="guarded-site reachability + operand-role provenance on MIR expressions; known-findings by exact key",
         ref="6/C17"),
     "C18": dict(
@@ -50,7 +53,8 @@ CLAIMS = {
              "Mint/Burn guards; allowance deducted first with identical owner/spender/amount, failing on expiry, checked_sub; "
              "CheckSlashing on the three burn paths. The stSei ledger is the version-pinned external cw20-base 0.16.0 (pin checked), "
              "trusted, not analysed. Sum-over-accounts equality in every reachable state follows by induction over operations, "
-             "which is argued in DESIGN, not mechanised.",
+             "which is argued in DESIGN, not mechanised."
+             " Also: every saved ledger value is computed from a fresh read (no stale read-modify-write when accounts coincide).",
         technique="ledger-delta summaries from MIR write shapes + dominance + guard reachability + lockfile pin",
         ref="6/C18"),
     "C16": dict(
@@ -58,7 +62,8 @@ CLAIMS = {
              "{Increase|Decrease(address, amount)} equals the cw20 ledger's balance deltas (account, sign, amount) read from the MIR "
              "write shapes; mirror messages precede the receive hook; the reward side applies the same signed amount to the holder "
              "record keyed by the message address and to total_balance; the message target is the dispatcher-configured reward "
-             "contract. Equality of the two stores in every reachable state follows by induction over operations (argued, not mechanised).",
+             "contract. Equality of the two stores in every reachable state follows by induction over operations (argued, not mechanised)."
+             " Also: every success exit of a balance-changing bSei variant passes the construction of each mirror message, except on an edge where the debited and credited accounts were observed equal; the reward side writes both stores on every success path.",
         technique="ledger-delta summaries vs emitted-message multiset (sibling agreement) on MIR",
         ref="6/C16"),
     "C14": dict(
@@ -66,14 +71,16 @@ CLAIMS = {
              "part of accrued + pending of the caller's record), keeps exactly the fractional remainder, advances the holder index, "
              "writes nothing before the non-zero test; UpdateGlobalIndex computes new rewards as own balance minus recorded balance, "
              "records the balance, divides by total_balance and writes nothing when no one holds bSei. NOT decided: the inequalities "
-             "sum(claimable) <= recorded <= actual and the dust bounds (numeric over populations).",
+             "sum(claimable) <= recorded <= actual and the dust bounds (numeric over populations)."
+             " Also: ClaimRewards refuses only a zero payable amount; no lost update of the State / Config of the reward contract.",
         technique="operand-role pattern matching on normalised MIR value expressions + guarded-site reachability",
         ref="6/C14"),
     "C15": dict(
         text="Decides only settle-before-mutate and operand roles: balance-changing messages add to pending the accrual computed from the "
              "holder's previous balance and index (flow-sensitive reaching definitions make a reordering visible), advance the index, "
              "then change the balance; every accrual is (global - holder index) x holder balance of one record keyed by the right "
-             "address. NOT decided: proportionality and independence (relational, numeric).",
+             "address. NOT decided: proportionality and independence (relational, numeric)."
+             " Also: no message removes a holder record or lowers pending_rewards other than the claim.",
         technique="flow-sensitive value provenance (reaching definitions) + operand-role matching",
         ref="6/C15"),
     "C07": dict(
@@ -92,7 +99,8 @@ CLAIMS = {
              "effect of the releasing loop is behind entry-exists, time <= now - unbonding_period and not-released; the batch id only "
              "changes by the roll-over's +1; the history map has exactly two writers and the releaser rewrites only `released` and the "
              "withdraw rates of the key it read; the recorded rates are the ones that price the undelegated amount and the pools are "
-             "reduced by those products. Assumes now - period does not wrap in u64 (envelope).",
+             "reduced by those products. Assumes now - period does not wrap in u64 (envelope)."
+             " Also: the history entry records the roll-over's own block time; no lost update of State / CurrentBatch / Parameters / Config in any hub variant (a value saved from an earlier load with a write of the same cell in between, directly or in a callee).",
         technique="guard-edge reachability (operator-exact) + writer inventory + value provenance on MIR",
         ref="6/C08"),
     "C01": dict(
@@ -103,7 +111,8 @@ CLAIMS = {
              "rates processed before the payable computation; the summing and releasing loops agree on start and on all three "
              "continuation conditions; per-token arguments of the withdraw-rate computation; arrived coins = balance - recorded balance "
              "with a negative difference an error. NOT decided: solvency (balance covers all matured claims), total paid <= arrived, "
-             "dust bounds, order independence across release groups (numeric over histories).",
+             "dust bounds, order independence across release groups (numeric over histories)."
+             " Also: the payable loop has no early exit towards success (every wait-list entry is visited); share and removal id go together in either order.",
         technique="loop-body guard reachability, sibling-loop agreement, pairing/provenance on MIR expressions",
         ref="6/C01"),
     "C05": dict(
@@ -120,7 +129,8 @@ CLAIMS = {
              "edge (a check can never raise a pool); the new bSei pool is delegated x from_ratio(old bSei, booked) and the stSei pool its "
              "complement (so the post-check sum is the delegated amount by shape); the delegated sum counts only the hub's own delegations "
              "in the staking denom; the recomputed State is what is saved, and CheckSlashing runs it. Token pairing of the withdraw-rate "
-             "computation is checked under C01.g. NOT decided: 'within two base units' and multi-batch proportionality (numeric).",
+             "computation is checked under C01.g. NOT decided: 'within two base units' and multi-batch proportionality (numeric)."
+             " Also: no success exit of the recompute function bypasses the booked-vs-delegated comparison except the two designed shortcuts (nothing delegated / nothing booked).",
         technique="guard-edge reachability on field assignments + operand-role/complement shape matching",
         ref="6/C06"),
     "C02": dict(
@@ -130,7 +140,8 @@ CLAIMS = {
              "empty answer is an error; the undelegated claim is the sum of exactly the two products subtracted from the pools and "
              "Undelegate pairs planner output i with the hub's own delegation i; spend-site inventory over all 15 variants (Send only on "
              "withdraw, Delegate only on bond, no funds on any WasmMsg); resync dominates every STATE write of every pricing handler. NOT "
-             "decided: booked <= delegated over histories; sum of Delegate amounts = payment (C12 arithmetic).",
+             "decided: booked <= delegated over histories; sum of Delegate amounts = payment (C12 arithmetic)."
+             " Also: a Convert hook moves one and the same coin value between the two pools (booked total conserved); every planner entry is turned into a Delegate / Undelegate (no early exit from the emitting loop, no iterator adaptor dropping non-zero entries); the planners' remainder is provably zero where the hub discards it.",
         technique="per-variant specialised exploration + ledger-delta shapes + index-expression pairing + dominance on MIR",
         ref="6/C02"),
     "C03": dict(
@@ -154,7 +165,8 @@ CLAIMS = {
              "not can_redelegate); entries pair remaining[i] with plan[i] in the delegation's denom, source is the removed address; "
              "RedelegateProxy then UpdateGlobalIndex to the hub, message-less success only on the can_redelegate < amount edge; the hub's "
              "RedelegateProxy copies src/dst/amount 1:1 per entry (registry-only: C10). NOT decided: sum of redelegations = delegation "
-             "(C12 arithmetic); delegated - booked unchanged (run-time).",
+             "(C12 arithmetic); delegated - booked unchanged (run-time)."
+             " Also: every success exit of RemoveValidator has removed the registry entry; the message-less success is reachable only when redelegation is impossible (lifted must-pass-through).",
         technique="dominance + guard reachability + index-expression pairing + message-sequence extraction on MIR",
         ref="6/C13"),
     "C09": dict(
@@ -173,7 +185,8 @@ CLAIMS = {
              "present, unknown fields only where ignored) on every cross-contract edge whose payload type differs from the receiver's enum - "
              "read from the derived serde impls in MIR, a compatibility no per-contract mock test exercises; zero-coin transfers in the "
              "delivery transaction (3 genuine dispatcher sites are known findings shared with C17). NOT decided: the end-state accounting "
-             "equalities (numeric).",
+             "equalities (numeric)."
+             " Also: conversions precede the rebalancing swap (shared with C17.i); reward::UpdateGlobalIndex and dispatcher::DispatchRewards have no explicit error exit other than the unauthorised-sender rejection.",
         technique="message-sequence extraction + cross-contract wire-schema diff of derived serde impls + guarded-site reachability",
         ref="6/C19"),
 }
